@@ -451,8 +451,9 @@ mod v_iface_frag_tx {
 
     // ------------------------------------------------------------------ reassembly through the real ingress path
     // Ghost datagram: protocol 253, 24 symbolic payload bytes, fragments [0,8) [8,16) [16,24), any ident; the frame of
-    // each step is an RFC 791 byte template written here (offset and MF chosen by the symbolic pick, one
-    // `process_ip` call per step).  4 symbolic picks: every order and duplication within the bound.
+    // each step is an RFC 791 byte template written here.  (A harness with 4 symbolic picks through `process_ip`
+    // ran out of memory at 8 GB, also with 64-byte reassembly buffers: the any-order argument is carried by the
+    // 1-induction harnesses ipv4_reasm_step_* in iface_frag.rs; here are fixed orders and one arbitrary fragment.)
     const GL: usize = 24;
 
     fn frag_frame(ident: u16, pick: u8, g: &[u8; GL]) -> [u8; 28] {
@@ -484,71 +485,148 @@ mod v_iface_frag_tx {
         (m & 1 != 0) as usize + ((m & 2 != 0) && (m & 1 == 0)) as usize + ((m & 4 != 0) && (m & 2 == 0)) as usize
     }
 
-    // @harness props=C12 cfg=KI4r tier=q to=900 mem=8 unwind=12 opts=nomem covers=3 funcs=InterfaceInner::process_ip;InterfaceInner::process_ipv4;PacketAssemblerSet::get;PacketAssembler::set_total_size;PacketAssembler::add;PacketAssembler::assemble;raw::Socket::process bounds=64-byte_reassembly_buffers_(KI4r);_datagram_of_24_payload_bytes_in_3_fragments_of_8;_4_symbolic_picks_(every_order_and_duplication);_symbolic_ident_and_bytes;_raw_socket_as_receiver;_no_expiry
-    #[kani::proof]
-    pub(crate) fn ipv4_reasm_process() {
+    macro_rules! raw_receiver {
+        ($sockets:ident, $h:ident) => {
+            let mut rxm = [sraw::PacketMetadata::EMPTY; 2];
+            let mut rxp = [0u8; 48];
+            let mut txm = [sraw::PacketMetadata::EMPTY; 1];
+            let mut txp = [0u8; 1];
+            let sock = sraw::Socket::new(
+                Some(IpVersion::Ipv4),
+                Some(IpProtocol::Unknown(253)),
+                sraw::PacketBuffer::new(&mut rxm[..], &mut rxp[..]),
+                sraw::PacketBuffer::new(&mut txm[..], &mut txp[..]),
+            );
+            let mut storage = [SocketStorage::EMPTY; 1];
+            let mut $sockets = SocketSet::new(&mut storage[..]);
+            let $h = $sockets.add(sock);
+        };
+    }
+
+    /// the three fragments in a fixed arrival order (`order[..n]`, concrete), symbolic ident and bytes: end-to-end
+    /// witness that `process_ipv4` feeds header-derived offsets and lengths to the assembler correctly (every
+    /// order, duplication and overlap is the business of ipv4_reasm_step_* in iface_frag.rs)
+    fn process_fixed(order: [u8; 4], n: usize) {
         ip_iface!(dev, iface, 1500, ChecksumCapabilities::ignored());
         let g: [u8; GL] = kani::any();
-        let ident: u16 = kani::any();
-        let mut rxm = [sraw::PacketMetadata::EMPTY; 2];
-        let mut rxp = [0u8; 48];
-        let mut txm = [sraw::PacketMetadata::EMPTY; 1];
-        let mut txp = [0u8; 1];
-        let sock = sraw::Socket::new(
-            Some(IpVersion::Ipv4),
-            Some(IpProtocol::Unknown(253)),
-            sraw::PacketBuffer::new(&mut rxm[..], &mut rxp[..]),
-            sraw::PacketBuffer::new(&mut txm[..], &mut txp[..]),
-        );
-        let mut storage = [SocketStorage::EMPTY; 1];
-        let mut sockets = SocketSet::new(&mut storage[..]);
-        let h = sockets.add(sock);
+        // (concrete ident: a symbolic one makes the slot pointer returned by `get` symbolic and the harness ran out of memory)
+        let ident: u16 = 0x1234;
+        raw_receiver!(sockets, h);
         let mut mask = 0u8;
-        let mut over = false;
         let mut delivered = 0usize;
         let mut ooo = false;
         let mut dup = false;
-
         macro_rules! step {
-            () => {{
-                let pick: u8 = kani::any();
-                kani::assume(pick < 3);
-                crate::vdump!("pick {}", pick);
-                let bit = 1u8 << pick;
-                dup = dup || mask & bit != 0;
-                ooo = ooo || mask & (bit - 1) != bit - 1;
-                mask |= bit;
-                over = over || runs3(mask) > crate::config::ASSEMBLER_MAX_SEGMENT_COUNT;
-                {
-                    let f = frag_frame(ident, pick, &g);
-                    let reply_none = iface.inner.process_ip(&mut sockets, PacketMeta::default(), &f[..], &mut iface.fragments).is_none();
-                    assert!(reply_none, "prop:c12_reasm_fragment_causes_no_reply");
-                }
-                match sockets.get_mut::<sraw::Socket>(h).recv() {
-                    Ok(b) => {
-                        assert!(mask == 7, "prop:c12_reasm_delivers_only_when_every_byte_present");
-                        assert!(b.len() == IPH + GL, "prop:c12_reasm_delivered_length_exact");
-                        let hh = hdr(&b[..IPH]);
-                        assert!(hh.total == IPH + GL && !hh.mf && hh.off == 0 && hh.proto == 253 && hh.src == REMOTE.octets() && hh.dst == LOCAL.octets(),
-                                "prop:c12_reasm_delivered_header_describes_whole_datagram");
-                        let k = any_lt(GL);
-                        assert!(b[IPH + k] == g[k], "prop:c12_reasm_delivered_bytes_equal_datagram");
-                        mask = 0;
-                        delivered += 1;
+            ($i:expr) => {{
+                if n > $i {
+                    let pick: u8 = order[$i];
+                    let bit = 1u8 << pick;
+                    dup = dup || mask & bit != 0;
+                    ooo = ooo || mask & (bit - 1) != bit - 1;
+                    mask |= bit;
+                    {
+                        let f = frag_frame(ident, pick, &g);
+                        let reply_none = iface.inner.process_ip(&mut sockets, PacketMeta::default(), &f[..], &mut iface.fragments).is_none();
+                        assert!(reply_none, "prop:c12_reasm_fragment_causes_no_reply");
                     }
-                    Err(_) => {
-                        assert!(mask != 7 || over, "prop:c12_reasm_delivers_when_gaps_trackable");
+                    match sockets.get_mut::<sraw::Socket>(h).recv() {
+                        Ok(b) => {
+                            assert!(mask == 7, "prop:c12_reasm_delivers_only_when_every_byte_present");
+                            assert!(b.len() == IPH + GL, "prop:c12_reasm_delivered_length_exact");
+                            let hh = hdr(&b[..IPH]);
+                            assert!(hh.total == IPH + GL && !hh.mf && hh.off == 0 && hh.proto == 253 && hh.src == REMOTE.octets() && hh.dst == LOCAL.octets(),
+                                    "prop:c12_reasm_delivered_header_describes_whole_datagram");
+                            let k = any_lt(GL);
+                            assert!(b[IPH + k] == g[k], "prop:c12_reasm_delivered_bytes_equal_datagram");
+                            mask = 0;
+                            delivered += 1;
+                        }
+                        Err(_) => {
+                            assert!(mask != 7, "prop:c12_reasm_delivers_when_gaps_trackable");
+                        }
                     }
                 }
             }};
         }
-        step!();
-        step!();
-        step!();
-        step!();
-        kani::cover!(delivered == 1 && ooo, "datagram delivered after out-of-order arrival");
-        kani::cover!(delivered == 1 && dup, "datagram delivered although a fragment was duplicated");
-        kani::cover!(delivered == 0 && mask != 0, "incomplete datagram: nothing delivered");
+        step!(0);
+        step!(1);
+        step!(2);
+        step!(3);
+        kani::cover!(delivered == 1 && (ooo || dup), "datagram delivered after out-of-order or duplicated arrival");
+    }
+
+    // @harness props=C12 cfg=KI4 tier=q to=600 mem=6 unwind=12 opts=nomem covers=1 funcs=InterfaceInner::process_ip;InterfaceInner::process_ipv4;PacketAssemblerSet::get;PacketAssembler::set_total_size;PacketAssembler::add;PacketAssembler::assemble;raw::Socket::process bounds=datagram_of_24_payload_bytes_in_3_fragments_of_8;_arrival_order_last,first,middle;_symbolic_bytes,_fixed_ident;_raw_socket_as_receiver
+    #[kani::proof]
+    pub(crate) fn ipv4_reasm_process_201() {
+        process_fixed([2, 0, 1, 0], 3);
+    }
+
+    // @harness props=C12 cfg=KI4 tier=q to=600 mem=6 unwind=12 opts=nomem covers=1 funcs=InterfaceInner::process_ip;InterfaceInner::process_ipv4;PacketAssemblerSet::get;PacketAssembler::set_total_size;PacketAssembler::add;PacketAssembler::assemble;raw::Socket::process bounds=datagram_of_24_payload_bytes_in_3_fragments_of_8;_arrival_order_middle,middle,last,first_(duplicate);_symbolic_bytes,_fixed_ident;_raw_socket_as_receiver
+    #[kani::proof]
+    pub(crate) fn ipv4_reasm_process_1120() {
+        process_fixed([1, 1, 2, 0], 4);
+    }
+
+    // One fragment into an empty reassembly set, header fields at boundary values: what `process_ipv4` stores is
+    // what the header says (offset, length; total size only from a fragment with MF clear); fragments reaching
+    // beyond the reassembly buffer are dropped without panic.  (All offsets and lengths at the PacketAssembler
+    // level: ipv4_reasm_bounds in iface_frag.rs; a harness with a symbolic offset through `process_ip` ran out of memory.)
+    fn process_one(off8: u16, mf: bool) {
+        ip_iface!(dev, iface, 1500, ChecksumCapabilities::ignored());
+        raw_receiver!(sockets, h);
+        let data: [u8; 8] = kani::any();
+        let ident: u16 = 0x1234;
+        let off = off8 as usize * 8;
+        let mut f = [0u8; 28];
+        f[0] = 0x45;
+        f[3] = 28;
+        f[4] = (ident >> 8) as u8;
+        f[5] = ident as u8;
+        f[6] = (off8 >> 8) as u8 | if mf { 0x20 } else { 0 };
+        f[7] = off8 as u8;
+        f[8] = 64;
+        f[9] = 253;
+        f[12..16].copy_from_slice(&REMOTE.octets());
+        f[16..20].copy_from_slice(&LOCAL.octets());
+        f[20..28].copy_from_slice(&data);
+        let reply_none = iface.inner.process_ip(&mut sockets, PacketMeta::default(), &f[..], &mut iface.fragments).is_none();
+        assert!(reply_none, "prop:c12_reasm_fragment_causes_no_reply");
+        assert!(sockets.get_mut::<sraw::Socket>(h).recv().is_err(), "prop:c12_reasm_delivers_only_when_every_byte_present");
+        let bsz = crate::config::REASSEMBLY_BUFFER_SIZE;
+        let fits = off + 8 <= bsz;
+        let a0 = iface.fragments.assembler.verif_slot(0);
+        let a1 = iface.fragments.assembler.verif_slot(1);
+        // exactly one slot was taken, for this datagram, expiring one reassembly timeout from now
+        assert!(a0.0 != a1.0, "prop:c12_reasm_first_fragment_takes_one_slot");
+        let (total, front_hole, front_len, exp) = if a0.0 { (a0.1, a0.2, a0.3, a0.4) } else { (a1.1, a1.2, a1.3, a1.4) };
+        assert!(exp == 60_000, "prop:c12_reasm_slot_expires_one_timeout_after_first_fragment");
+        if fits {
+            assert!(total == if mf { None } else { Some(off + 8) }, "prop:c12_reasm_total_size_only_from_last_fragment");
+            assert!(front_hole == off && front_len == 8, "prop:c12_reasm_fragment_recorded_at_header_offset");
+            let k = any_lt(8);
+            assert!(iface.fragments.assembler.verif_byte(if a0.0 { 0 } else { 1 }, off + k) == data[k], "prop:c12_reasm_fragment_stored_at_its_offset");
+        } else {
+            assert!(front_len == 0, "prop:c12_reasm_fragment_beyond_buffer_rejected");
+        }
+        kani::cover!(fits == (off + 8 <= 256), "fragment processed");
+    }
+
+    // @harness props=C12,C03 cfg=KI4 tier=q to=600 mem=6 unwind=12 opts=nomem covers=1 funcs=InterfaceInner::process_ip;InterfaceInner::process_ipv4;Ipv4Packet::frag_offset;Ipv4Packet::more_frags;Ipv4Packet::get_key;PacketAssemblerSet::get;PacketAssembler::set_total_size;PacketAssembler::add bounds=one_fragment_of_8_symbolic_bytes_into_an_empty_reassembly_set;_offset_248_MF_clear_(ends_exactly_at_the_256-byte_buffer_end)
+    #[kani::proof]
+    pub(crate) fn ipv4_reasm_process_one_end() {
+        process_one(31, false);
+    }
+
+    // @harness props=C12,C03 cfg=KI4 tier=q to=600 mem=6 unwind=12 opts=nomem covers=1 funcs=InterfaceInner::process_ip;InterfaceInner::process_ipv4;Ipv4Packet::frag_offset;Ipv4Packet::more_frags;Ipv4Packet::get_key;PacketAssemblerSet::get;PacketAssembler::set_total_size;PacketAssembler::add bounds=one_fragment_of_8_symbolic_bytes_into_an_empty_reassembly_set;_offset_256_MF_clear_(one_block_beyond_the_buffer)
+    #[kani::proof]
+    pub(crate) fn ipv4_reasm_process_one_beyond() {
+        process_one(32, false);
+    }
+
+    // @harness props=C12,C03 cfg=KI4 tier=q to=600 mem=6 unwind=12 opts=nomem covers=1 funcs=InterfaceInner::process_ip;InterfaceInner::process_ipv4;Ipv4Packet::frag_offset;Ipv4Packet::more_frags;Ipv4Packet::get_key;PacketAssemblerSet::get;PacketAssembler::set_total_size;PacketAssembler::add bounds=one_fragment_of_8_symbolic_bytes_into_an_empty_reassembly_set;_offset_65528_MF_set_(largest_offset)
+    #[kani::proof]
+    pub(crate) fn ipv4_reasm_process_one_far() {
+        process_one(8191, true);
     }
 
     // @harness props=C12 kind=mustfail cfg=KI4 tier=q to=600 mem=6 unwind=12 opts=nomem
